@@ -62,6 +62,34 @@ OBSERVERS = {(0x1002, 32), (0x1010, 0), (0x1011, 0), (0x10C1, 0), (0x1110, 0), (
              (0x10CE, 28004), (0x10D0, 272), (0x10E0, 44), (0x1100, 8), (0x1045, 16), (0x10B0, 16)}
 
 
+# commands whose struct holds a SIZE / COUNT field that a guard does arithmetic on (round 8, seed C17-cart-minsize-wrap): they also get
+# the WORD fills `w<8 hex digits>` (the whole block = that little-endian 32-bit word, so every aligned field holds it) at the boundary
+# sizes, with the values at which 32-bit guard arithmetic wraps: 2^31 - 1, 2^31, 2^32 - 1, 2^32 - 16, 2^32 - offsetof (variable part) + d,
+# 2^32 - sizeof (struct) + d, and for SFC_SET_CUE the counts whose product with sizeof (SF_CUE_POINT) passes 2^32
+SIZED = {"SFC_SET_BROADCAST_INFO", "SFC_SET_CART_INFO", "SFC_SET_CUE", "SFC_SET_INSTRUMENT", "SFC_SET_CHANNEL_MAP_INFO", "SFC_FILE_TRUNCATE",
+         "SFC_SET_RAW_START_OFFSET"}
+
+
+def word_fills(name, s):
+    ws = {0x7FFFFFFF, 0x80000000, 0xFFFFFFFF, 0xFFFFFFF0, 0x00010000}
+    for d in (-1, 0, 1):
+        ws.add((1 << 32) - s + d)
+    if name in FIXED:
+        for d in (-1, 0, 1, 256):
+            ws.add((1 << 32) - (FIXED[name] + 4) + d)
+    if name == "SFC_SET_CUE":
+        ws |= {15339168, 15339169, 15339170, (1 << 32) // 4}
+    return ["w%08x" % (w & 0xFFFFFFFF) for w in sorted(ws)]
+
+
+def word_sizes(name, s):
+    zs = {4, 8, 16, s - 1, s, s + 1, s + 8, 4096}
+    if name in FIXED:
+        f = FIXED[name]
+        zs |= {f + 3, f + 4, f + 5, f + 20}
+    return sorted(z for z in zs if z >= 0)
+
+
 def command_ids(repo):
     """(name, id) of every SFC_* enumerator of the public header."""
     src = open(os.path.join(repo, "include", "sndfile.h")).read()
@@ -111,6 +139,8 @@ def grid_lines(ids, facts, full):
             out.append("%s %d null,a5,zero,one,nl %s" % (hexid(cid), -1, " ".join(map(str, more))))
         else:
             out.append("%s %d null,a5,zero,one,nl %s" % (hexid(cid), top, " ".join(map(str, extras))))
+        if name in SIZED and full:
+            out.append("%s %d %s %s" % (hexid(cid), -1, ",".join(word_fills(name, s)), " ".join(map(str, word_sizes(name, s)))))
     return out
 
 
@@ -318,6 +348,9 @@ def eval_points(ctx, text, symbolize=False, verbose=False):
 
 def do_replay(ctx, path):
     text = open(path).read()
+    if "abs-geom" in text:
+        from .. import absreplay
+        return absreplay.replay(ctx, path)            # a history of vlib/cmdops.py: re-judged by `sfmodel abs`
     if not POINT_RE.search(text):
         print(text)
         print("replay: this file names a theorem / correspondence stream, there is no point to run")
@@ -471,6 +504,12 @@ def run(ctx):
         ctx.notes["model_disagreement_digest"] = dict(sorted(dis_digest.items())[:400])
     for r in results[:2]:
         ctx.sample({"combo": "/".join(r["combo"]), "points": r["points"], "facts": r["facts"][:400]})
+
+    # ---- 4. commands as operations of read/write histories (vlib/cmdops.py): "queries leave position and audio unchanged" where only
+    #         the NEXT write / read shows it (the descriptor and last_op are not in the digest)
+    from .. import cmdops
+    if cmdops.run(ctx, "C17", cmdops.formats_for(ctx), ctx.tier == "quick"):
+        found_input = True
 
     if failed and not found_input:
         ctx.violation("lean-stage", "theorem(s) no longer check: %s\nno failing input found by the complete sf_command grid\n%s"
